@@ -79,8 +79,12 @@ pub fn verify_signature(m: &Msg, keys: &HashMap<String, String>, client_sent: &[
 
 /// "Sat, 26 Sep 2026 23:06:53 GMT" -> unix seconds
 pub fn parse_rfc1123(s: &str) -> Option<i64> {
-    let p: Vec<&str> = s.split_whitespace().collect();
-    if p.len() != 6 || p[5] != "GMT" || !p[0].ends_with(',') {
+    // IMF-fixdate (RFC 9110 5.6.7): fixed width, two-digit day, four-digit year, single spaces
+    if s.len() != 29 || s.contains("  ") {
+        return None;
+    }
+    let p: Vec<&str> = s.split(' ').collect();
+    if p.len() != 6 || p[5] != "GMT" || !p[0].ends_with(',') || p[0].len() != 4 || p[1].len() != 2 || p[3].len() != 4 || p[4].len() != 8 {
         return None;
     }
     let day: i64 = p[1].parse().ok()?;
@@ -98,6 +102,11 @@ pub fn parse_rfc1123(s: &str) -> Option<i64> {
     let doy = (153 * (if mon > 2 { mon - 3 } else { mon + 9 }) + 2) / 5 + day - 1;
     let doe = yoe * 365 + yoe / 4 - yoe / 100 + doy;
     let days = era * 146097 + doe - 719468;
+    // the day name belongs to the date (1970-01-01 was a Thursday)
+    let dow = ["Thu", "Fri", "Sat", "Sun", "Mon", "Tue", "Wed"][(days.rem_euclid(7)) as usize];
+    if &p[0][..3] != dow || day < 1 || day > 31 || h > 23 || mi > 59 || sec > 60 {
+        return None;
+    }
     Some(days * 86400 + h * 3600 + mi * 60 + sec)
 }
 
@@ -125,7 +134,7 @@ pub fn check_owned_headers(m: &Msg, elevated: bool, t_before: i64, t_after: i64)
     } else {
         let v = String::from_utf8_lossy(dates[0]).to_string();
         match parse_rfc1123(&v) {
-            None => bad.push(("date-format".to_string(), format!("date header {v:?} is not RFC 1123"))),
+            None => bad.push(("date-format".to_string(), format!("date header {v:?} is not an RFC 1123 / IMF-fixdate date (fixed width, two-digit day, day name of that date)"))),
             Some(t) => {
                 if t < t_before - 1 || t > t_after + 1 {
                     bad.push(("date-not-current".to_string(), format!("date header {v:?} is {}s away from the proxy's current time", if t < t_before { t_before - t } else { t - t_after })));
